@@ -204,8 +204,8 @@ def c17(c):
 def c02(c):
     v = [('float.mt', ['-DVF_T=float']), ('double.mt', ['-DVF_T=double']), ('ldouble.mt', ['-DVF_T=long double']),
          ('double.minstd', ['-DVF_T=double', '-DVF_ENG=std::minstd_rand']), ('double.ranlux48', ['-DVF_T=double', '-DVF_ENG=std::ranlux48'])]
-    c.std([dict(src='c02_estimator.cpp', build='asan', variants=v, shards={'quick': 3, 'thorough': 3})])
-    for k in ('iterations_judged', 'adjustment_entries_judged', 'bins_judged', 'runs_plain', 'runs_vegas', 'runs_multi_channel', 'finite_values_with_non_finite_product', 'zero_values_where_weight_is_not_finite', 'constructed_results_with_N>2^32', 'denormal_values', 'mc_runs_with_densities_written_for_disabled_channels'):
+    c.std([dict(src='c02_estimator.cpp', build='asan', variants=v, shards={'quick': 3, 'thorough': 3}, extra_inc=SHIM, libs=['-pthread'])])
+    for k in ('iterations_judged', 'adjustment_entries_judged', 'bins_judged', 'runs_plain', 'runs_vegas', 'runs_multi_channel', 'finite_values_with_non_finite_product', 'zero_values_where_weight_is_not_finite', 'constructed_results_with_N>2^32', 'denormal_values', 'mc_runs_with_densities_written_for_disabled_channels', 'mpi_iterations_with_more_than_2^24_evaluations'):
         c.require(k)
 
 
